@@ -44,7 +44,13 @@ RULE = ('product family: all sheet descriptions that differ from the default des
         '(headers, cells, comment row, sheet layout) and non-trivial when its set of reader branches '
         '(special setters used, empty cells, padded cells, presets, multi-row ...) differs from the '
         'default sheet (product), when a column has an empty cell below a filled one (block) or when '
-        'the history has more than one call (calls)')
+        'the history has more than one call (calls); text family: every text of a list of 48 texts that hold a '
+        'character or word special to table / spreadsheet readers (#, leading =, quotes, ; , line break, tab, '
+        'NA-like words inside longer text, % $ \\ < & + - @ | ...) in every column that may hold free text (first / '
+        'middle / last ordinary column, both members of a list, both keys of a dictionary) x column order '
+        '(filled cells of every kind to its right / to its left), one row per text, plus every text column at '
+        'once, plus one-row sheets (text x first ordinary / ordinary / dictionary column, comment row present and '
+        'absent)')
 ASSUMPTIONS = [
     'cells are numbers, or strings that pandas does not itself read as missing (NA, N/A, NaN, None, null, '
     'empty string ... are "empty" by the reader\'s documented na_values convention and are not used)',
@@ -62,6 +68,9 @@ ASSUMPTIONS = [
     'data row with an empty record',
     'atoms and vib_outcar columns (need ASE structure files / OUTCAR) are not in the statement and '
     'not explored',
+    'text family: a text cell is stored as a text cell (a string that begins with = is written with the '
+    'string data type, not as a formula); texts that look like numbers or dates are not used (the type '
+    'inference of the spreadsheet library is not pMuTT\'s business)',
 ]
 EXPLANATION = ('stateless exploration of the real reader: every case is a workbook written to disk and '
                'read by pmutt.io.excel.read_excel')
@@ -141,7 +150,38 @@ LONG_GROUPS = (['list.i0:' + nm for nm in LONG_LIST_NAMES] + ['list.i1:' + nm fo
 LONG_ORDERS = ['identity', 'reversed', 'interleaved']
 N_LONG_SHARDS = {'quick': 16, 'thorough': 64}
 
+# ---- text family: text cells holding characters that are special to spreadsheet / table readers
+# (comment characters, formula / quoting / separator characters, line breaks, words that read as "missing" when they
+# are the WHOLE cell but not inside longer text).  (class, text); none of them is a whole-cell NA word of pandas.
+SPECIAL_TEXTS = [
+    ('hash', 'C#N'), ('hash', 'N#N'), ('hash', '[C-]#[O+]'), ('hash', 'see ref #3'), ('hash', '#1 candidate'),
+    ('hash', 'ends with #'), ('hash', '#'), ('hash', '#N/A for the gas phase'),
+    ('equals-leading', '=O'), ('equals-leading', '=C=O'), ('equals-leading', '=='), ('equals', 'a=b'),
+    ('quote', 'say "hi"'), ('quote', '"quoted"'), ('quote', '"'), ('quote', "O'Neil"), ('quote', "'single'"),
+    ('quote', "'leading apostrophe"),
+    ('semicolon', 'a;b'), ('semicolon', ';'), ('semicolon', 'x, y; z'),
+    ('comma', 'a,b'), ('comma', '1,234 cm-1'), ('comma', ','),
+    ('newline', 'line1\nline2'), ('newline', 'a\n\nb'), ('tab', 'a\tb'),
+    ('na-word', 'NA2'), ('na-word', 'NaN3 is an azide'), ('na-word', 'N/A for gas'), ('na-word', 'None of these'),
+    ('na-word', 'null result'), ('na-word', 'not NA'), ('na-word', 'nan-particle'),
+    ('other', '50%'), ('other', '$5'), ('other', 'a\\b'), ('other', '\\N'), ('other', 'C:\\dir\\file.txt'),
+    ('other', '<b>x</b> & y'), ('other', '+1 eV'), ('other', '-x'), ('other', '@home'), ('other', 'a|b'),
+    ('other', 'True story'), ('other', '1e5x'), ('other', '*'), ('other', '\u00c5\u00b2'),
+]
+TEXT_HEADERS = ['name', 'element.C', 'notes', 'list.tags', 'list.tags.1', 'potentialenergy', 'dict.info.src',
+                'dict.info.n', 'vib_wavenumber', 'vib_wavenumber', 'statmech_model', 'smiles']
+# columns that may hold free text: (position in TEXT_HEADERS, kind)
+TEXT_COLUMNS = [(0, 'first-ordinary'), (2, 'ordinary'), (11, 'last-ordinary'), (3, 'list'), (4, 'list'),
+                (6, 'dict'), (7, 'dict')]
+TEXT_SINGLE_COLUMNS = [0, 2, 6]
+TEXT_ORDERS = ['identity', 'reversed']
+N_TEXT_SHARDS = 2
+
 PLANNED_TAGS = (
+    ['text:' + c for c in sorted({c for c, _ in SPECIAL_TEXTS})]
+    + ['text-col:' + k for k in sorted({k for _, k in TEXT_COLUMNS})]
+    + ['text:filled-cells-to-the-right', 'text:one-row-sheet', 'text:every-text-column',
+       'text:first-data-row', 'text:last-data-row', 'text:order-identity', 'text:order-reversed'] +
     ['col:ordinary', 'col:ordinary-padded-header', 'col:element', 'col:formula', 'col:vib_wavenumber',
      'vib:x1', 'vib:x3', 'vib:x30', 'col:rot_temperature', 'rot:x3', 'col:list', 'col:list.i', 'col:list-repeated',
      'col:dict', 'dict:two-names', 'col:nasa.a_low', 'col:nasa.a_high', 'col:special-padded-header',
@@ -180,6 +220,11 @@ def bounds(tier):
                                  rows='all / each member alone / members >= 10 / members < 10 / every third '
                                       'empty / none',
                                  pairs_of_groups=(tier != 'quick')),
+                text_family=dict(texts=[t for _, t in SPECIAL_TEXTS], headers=TEXT_HEADERS,
+                                 text_columns=[TEXT_HEADERS[j] for j, _ in TEXT_COLUMNS], orders=TEXT_ORDERS,
+                                 sheets='per text column x order: one row per text (+ every text column at once); '
+                                        'per text x column of %s: a one-row sheet'
+                                        % [TEXT_HEADERS[j] for j in TEXT_SINGLE_COLUMNS]),
                 option_passing=['omitted', 'explicit-defaults', 'sheet-index+pathlib'],
                 differential='every row of every multi-row sheet is also read alone (60-row sheets '
                              'with 3 deviations: rows 0-5 and 54-59)')
@@ -224,6 +269,8 @@ def shards(tier):
         out.append(dict(fam='calls', first=first, depth=CALL_DEPTH[tier]))
     for p in range(N_LONG_SHARDS[tier]):
         out.append(dict(fam='long', tier=tier, part=p, of=N_LONG_SHARDS[tier]))
+    for p in range(N_TEXT_SHARDS):
+        out.append(dict(fam='text', part=p, of=N_TEXT_SHARDS))
     if tier == 'thorough':
         for q in BLOCK4_THOROUGH:
             for m in range(256):
@@ -578,6 +625,68 @@ def _long_configs(tier):
                     yield [g1, g2], n, order, False
 
 
+# ------------------------------------------------------------ text family
+def _text_default(j, r):
+    """Ordinary content of column j of TEXT_HEADERS in row r."""
+    return ['sp%d' % r, 1 + r, 'note %d' % r, 'tag%d' % r, r + 0.5, -1.5 * r - 0.25, 'src%d' % r, 2 + r,
+            100.5 + r, 200.5 + r, PRESET_NAMES[r % len(PRESET_NAMES)], 'C' * (1 + r % 3)][j]
+
+
+def build_text_case(kind, col, order, start=0):
+    """kind 'packed': one row per special text, the text in column `col`; 'all': one row per special text, every
+    text column holds a special text (rotating); 'single': a one-row sheet with text number `start` in column `col`.
+    All other cells hold ordinary content (a fixed sparse mask of them is empty), so that a text cell always has
+    filled cells of every kind to its right (order identity) or to its left (reversed)."""
+    n = len(SPECIAL_TEXTS)
+    tcols = [j for j, _ in TEXT_COLUMNS]
+    kinds = dict(TEXT_COLUMNS)
+    rows, row_sig, ttags = [], [], set()
+    for r in (range(n) if kind != 'single' else [0]):
+        row, classes = [], []
+        for j in range(len(TEXT_HEADERS)):
+            special = None
+            if kind == 'all' and j in tcols:
+                special = SPECIAL_TEXTS[(r + 7 * tcols.index(j)) % n]
+            elif kind != 'all' and j == col:
+                special = SPECIAL_TEXTS[(start + r) % n]
+            if special is not None:
+                row.append(special[1])
+                classes.append(special[0])
+                ttags.add('text:' + special[0])
+                ttags.add('text-col:' + kinds[j])
+            elif j != 0 and kind != 'single' and (r + 2 * j) % 5 == 0:
+                row.append(None)
+            else:
+                row.append(_text_default(j, r))
+        rows.append(row)
+        row_sig.append({'text': classes[0] if len(set(classes)) == 1 else 'several'})
+    cols = list(range(len(TEXT_HEADERS)))
+    if order == 'reversed':
+        cols.reverse()
+        rows = [[row[j] for j in cols] for row in rows]
+    elif order != 'identity':
+        raise ValueError(order)
+    ttags.add('text:order-' + order)
+    ttags.update({'packed': ['text:first-data-row', 'text:last-data-row'], 'all': ['text:every-text-column'],
+                  'single': ['text:one-row-sheet', 'text:first-data-row']}[kind])
+    if kind == 'all' or cols.index(col) < len(cols) - 1:
+        ttags.add('text:filled-cells-to-the-right')
+    return dict(family='text', kind=kind, col=(TEXT_HEADERS[col] if kind != 'all' else 'all'), order=order,
+                colkind=(kinds[col].split('-')[-1] if kind != 'all' else 'every-text-column'),
+                headers=[TEXT_HEADERS[j] for j in cols], rows=rows, comment=(kind != 'single' or start % 2 == 0),
+                sheet=None, decoy=None, diff_rows=[0, len(rows) - 1], row_sig=row_sig, ttags=sorted(ttags))
+
+
+def _text_configs():
+    for order in TEXT_ORDERS:
+        for col, _ in TEXT_COLUMNS:
+            yield 'packed', col, order, 0
+        yield 'all', 0, order, 0
+    for t in range(len(SPECIAL_TEXTS)):
+        for col in TEXT_SINGLE_COLUMNS:
+            yield 'single', col, 'identity', t
+
+
 # ------------------------------------------------------------ running one case
 _TMP = {}
 
@@ -607,12 +716,23 @@ def write_workbook(case, rows=None):
     wb = openpyxl.Workbook(write_only=True)
     headers = case['headers']
 
+    def text_cells(ws, r):
+        # openpyxl stores a string that begins with '=' as a formula unless told otherwise: keep it a text cell
+        out = []
+        for v in r:
+            if isinstance(v, str) and v.startswith('='):
+                from openpyxl.cell import WriteOnlyCell
+                v = WriteOnlyCell(ws, v)
+                v.data_type = 's'
+            out.append(v)
+        return out
+
     def fill(ws, data):
         ws.append(list(headers))
         if case['comment']:
             ws.append(['comment'] + [None] * (len(headers) - 1))
         for r in data:
-            ws.append(list(r))
+            ws.append(text_cells(ws, r))
 
     # a decoy sheet is a well-formed sheet with other numbers and one more row than the real one
     real = case['rows'] if rows is None else rows
@@ -695,6 +815,8 @@ def _sig0(case):
         s['quad'] = case['quad']
     if case['family'] == 'long':
         s['group'] = '+'.join(g.split(':')[0] for g in case['groups'])
+    if case['family'] == 'text':
+        s['textcol'] = case['colkind']
     return s
 
 
@@ -804,6 +926,8 @@ def case_tags(case):
             if case['dev'].get('order', 'identity') == o:
                 tags.add('order:' + o)
         tags.add('kw:' + case.get('kw', 'omitted'))
+    if case['family'] == 'text':
+        tags.update(case['ttags'])
     if case['family'] == 'long':
         for g in case['groups']:
             tags.add('long:' + g)
@@ -886,6 +1010,8 @@ def _check(sheet, ctx, sig, case=None, fresh=True, differential=True, scribble=F
         ctx.evals()
         diff = ref.first_difference(o, e)
         s = dict(sig)
+        if sheet.get('row_sig'):
+            s.update(sheet['row_sig'][i])              # text family: which class of special text the row holds
         if diff is not None:
             s.update(key=diff[0], kind=diff[1])
         ok &= ctx.equal('record has exactly the keys of the non-empty cells', sorted(o), sorted(e), s, case)
@@ -971,6 +1097,8 @@ def run_shard(shard, ctx):
             _run_calls(shard, ctx)
         elif shard['fam'] == 'long':
             _run_long(shard, ctx)
+        elif shard['fam'] == 'text':
+            _run_text(shard, ctx)
         else:
             _run_block(shard, ctx)
     finally:
@@ -1003,6 +1131,19 @@ def _run_long(shard, ctx):
         check_case(case, ctx)
         ctx.nontrivial(key)             # > 10 members: a branch the default sheet never reaches
         if n == 30 and order == 'interleaved':
+            ctx.sample(case, limit=1)
+
+
+def _run_text(shard, ctx):
+    for k, (kind, col, order, start) in enumerate(_text_configs()):
+        if k % shard['of'] != shard['part']:
+            continue
+        case = build_text_case(kind, col, order, start)
+        key = ('t', kind, col, order, start)
+        ctx.state(key)
+        check_case(case, ctx)
+        ctx.nontrivial(key)             # a special character in a text cell: never in the default sheet
+        if kind == 'all':
             ctx.sample(case, limit=1)
 
 
@@ -1060,7 +1201,8 @@ LEVEL_TEXT = ('Deviation-bounded product enumeration of worksheet descriptions (
               'the default sheet, plus all 2^12 (thorough also 2^16) emptiness patterns of a rows x 4 block for '
               'each column quadruple, plus BFS over histories of 2 (thorough 3) reader calls in one module state, '
               'plus, for each of 16 indexed / repeatable header kinds, every member count 11-30 in three column '
-              'orders (thorough: every pair of kinds in one sheet); '
+              'orders (thorough: every pair of kinds in one sheet), plus text cells holding each character / word that '
+              'is special to table readers in every free-text column with filled cells on both sides; '
               'every sheet is written with openpyxl and read by the real read_excel; '
               'records compared key by key with a documentation-derived reference and, row by row, with the '
               'one-row sheet holding only that row.')
